@@ -452,6 +452,22 @@ def no_self_pairs(m):
 
 
 # ------------------------------------------------------------------------------------------------ target 3
+class find_residue_body:
+    """Structure3D.find_residue stays INLINE at its call sites and inside `found`; this contract pins what it must compute:
+    the residue registered under the label if there is one, else the one registered under the auth identifier, else None"""
+    target = "Structure3D.find_residue"
+    params = {"self": "Structure3D", "label": "opt[ResidueLabel]", "auth": "opt[ResidueAuth]"}
+    requires = []
+    returns = "opt[Residue3D]"
+    ensures = ["implies(label in self.residue_map, result == self.residue_map.get(label))",
+               "implies(not (label in self.residue_map) and auth in self.residue_map, result == self.residue_map.get(auth))",
+               "implies(not (label in self.residue_map) and not (auth in self.residue_map), is_none(result))",
+               "implies(not is_none(result), exists(lambda r: ref(ResidueLabel, r) in self.residue_map and self.residue_map[ref(ResidueLabel, r)] == result))"]
+    ensures_labels = {0: "label-first", 1: "then-auth", 2: "else-None", 3: "result-is-registered"}
+    raises = []
+    modifies = []
+
+
 class reverse:
     """BasePair3D.reverse (cached_property): the same interaction read from the other residue"""
     target = "BasePair3D.reverse"
@@ -501,6 +517,19 @@ def lifts_all(m, L, c):
 
 
 @spec
+def comes_from(m, x, b):
+    return resolvable(m, b) and (is_lift(m, x, b) or is_rev_lift(m, x, b))
+
+
+@spec
+def first_occurrence_order(m, L, c):
+    """(NOT among the proved clauses: discharged only unstably, 1-20 s) the elements of L are ordered by the input entry that
+    first produces them: whichever entry produces a later element, an entry at or before it produces the earlier element"""
+    return forall(lambda k, k2, t2: implies(0 <= k and k < k2 and k2 < len(L) and 0 <= t2 and t2 < c and comes_from(m, L[k2], m.base_pairs2d[t2]),
+                                            exists(lambda t: 0 <= t and t <= t2 and comes_from(m, L[k], m.base_pairs2d[t]))))
+
+
+@spec
 def used_has(U, L):
     """every element of the list L is in the set U"""
     return forall(lambda k: implies(0 <= k and k < len(L), L[k] in U))
@@ -544,7 +573,8 @@ class base_pairs_body(base_pairs_callee):
     loops = {0: {"index": "c", "inv": ["len(result) >= 0", "used_has(used, result)", "used_only(used, result)", "distinct(result)", "lifted_from(self, result, c)", "lifts_all(self, result, c)"]}}
     ghost = [
         {"when": "after", "at": "bp = BasePair3D(", "label": "lifted", "do": ["assert resolvable(self, base_pair) and is_lift(self, bp, base_pair)"]},
-        {"when": "before", "at": "result.append(bp)", "label": "r0", "do": ["let R0 = result"]},
+        {"when": "before", "at": "result.append(bp)", "label": "r0",
+         "do": ["let R0 = result"]},
         {"when": "after", "at": "result.append(bp)", "label": "appended",
          "do": ["assert extends(result, R0)", "assert result[len(result) - 1] == bp and is_lift(self, result[len(result) - 1], base_pair)", "assert distinct(result)"]},
         {"when": "before", "at": "used.add(bp)", "label": "used0", "do": ["let U0 = used"]},
@@ -629,5 +659,6 @@ CONTRACTS = {
     "Mapping2D3D.base_pairs": base_pairs_callee,
     "Mapping2D3D.base_pairs@body": base_pairs_body,
     "BasePair3D.reverse": reverse,
+    "Structure3D.find_residue@body": find_residue_body,
     "Mapping2D3D._generated_bpseq_data": generated_bpseq_data,
 }
